@@ -253,10 +253,11 @@ def process_pyro_request(environ, path, parameters, start_response):
                 if method in proxy._pyroAttrs:
                     # retrieve the attribute
                     assert not parameters, "attribute lookup can't have query parameters"
-                    msg = getattr(proxy, method)
+                    msg = proxy.__getattr__(method)
                 else:
                     # call the remote method
-                    msg = getattr(proxy, method)(**parameters)
+                    # (remote lookup only: a name such as _pyroRelease must not resolve to the local proxy's own method)
+                    msg = proxy.__getattr__(method)(**parameters)
                     
                 if msg is None or "oneway" in pyro_options:
                     # was a oneway call, no response available
